@@ -1,2 +1,6 @@
 import Proofs.AllotLemmas
 import Proofs.ReconcileLemmas
+import Proofs.DrawBoundLemmas
+import Proofs.DistributeLemmas
+import Proofs.DistributeLemmas2
+import Proofs.DrawLemmas
